@@ -47,6 +47,9 @@ func materialise(p *pools, s scenario, ep *uint64, put func(o scnObj, obj *objec
 			kit.Must(mark(o, id, meta.GarbageMarkRedundant))
 		case "del":
 			kit.Must(del(o, id))
+		case "gcdel": // what the shard GC does: garbage mark first, physical removal later
+			kit.Must(mark(o, id, meta.GarbageMarkDefault))
+			kit.Must(del(o, id))
 		}
 	}
 	*ep = s.CurEpoch
@@ -173,8 +176,10 @@ func randObjs(r *rand.Rand, n int, putEpoch, curEpoch uint64) []scnObj {
 				o.Fate = "gc"
 			case 1:
 				o.Fate = "gcr"
-			case 2:
+			case 2, 3:
 				o.Fate = "del"
+			case 4:
+				o.Fate = "gcdel"
 			}
 		}
 		objs = append(objs, o)
@@ -319,6 +324,18 @@ func randQuery(r *rand.Rand, vs valueSrc, nObj int) scnQuery {
 				k = userKeys[r.Intn(len(userKeys))]
 			}
 			q.Attrs = append(q.Attrs, k)
+		}
+	}
+	if r.Intn(6) == 0 { // numeric walk over a header field; the other filters must not need another attribute
+		k := []string{object.FilterPayloadSize, object.FilterCreationEpoch, object.AttributeExpirationEpoch}[r.Intn(3)]
+		f := scnFilter{K: k, Op: []string{"GE", "GT", "LT", "LE"}[r.Intn(4)], V: []string{"0", "-1", "1", "100", "150", "2", "12", "300"}[r.Intn(8)]}
+		q.Fs = []scnFilter{f}
+		if r.Intn(3) == 0 {
+			q.Fs = append(q.Fs, scnFilter{K: userKeys[r.Intn(len(userKeys))], Op: "NOT_PRESENT"})
+		}
+		q.Attrs = []string{k}
+		if r.Intn(3) == 0 {
+			q.Attrs = append(q.Attrs, userKeys[r.Intn(len(userKeys))])
 		}
 	}
 	q.Ns = []int{1, 2 + r.Intn(3), 1000}
